@@ -73,7 +73,15 @@ func (c *Counters) Sample(max int, s any) {
 	}
 }
 
+// Reclassify, if set, may rewrite a violation before it is filed (the checks
+// use it to turn verdicts reached while the model git met a command it does
+// not implement into harness errors).
+var Reclassify func(v *Violation)
+
 func (c *Counters) Violate(v Violation) {
+	if Reclassify != nil {
+		Reclassify(&v)
+	}
 	// at most 40 per class are kept: a frequent class (a known finding met in
 	// thousands of cases) must never crowd out a violation of another class
 	n := 0
